@@ -31,21 +31,22 @@ def free_consts(exprs):
 
 
 class Trace:
-    """variables of a k-step history"""
+    """variables of a k-step history; `tag` distinguishes a second system run on the same inputs (relational checks)"""
 
-    def __init__(self, K, k, with_policy=False):
+    def __init__(self, K, k, with_policy=False, tag=''):
         self.K = K
         self.k = k
-        self.S = [St(K, f'@{t}') for t in range(k + 1)]
+        self.tag = tag
+        self.S = [St(K, f'@{t}{tag}') for t in range(k + 1)]
         self.I = [In(f'@{t}') for t in range(k)]
-        self.sel = [z3.Int(f'sel@{t}') for t in range(k)]
+        self.sel = [z3.Int(f'sel@{t}{tag}') for t in range(k)]
         self.cmd = [z3.BitVec(f'cmd@{t}', 8) for t in range(k)]
         self.key = [z3.BitVec(f'key@{t}', 8) for t in range(k)]
-        self.rkind = [z3.BitVec(f'rkind@{t}', 8) for t in range(k)]
-        self.rcas = [z3.BitVec(f'rcas@{t}', 64) for t in range(k)]
-        self.rnum = [z3.BitVec(f'rnum@{t}', 64) for t in range(k)]
-        self.rval = [z3.Const(f'rval@{t}', Val) for t in range(k)]
-        self.evict = [z3.Bool(f'evict@{t}') for t in range(k)]
+        self.rkind = [z3.BitVec(f'rkind@{t}{tag}', 8) for t in range(k)]
+        self.rcas = [z3.BitVec(f'rcas@{t}{tag}', 64) for t in range(k)]
+        self.rnum = [z3.BitVec(f'rnum@{t}{tag}', 64) for t in range(k)]
+        self.rval = [z3.Const(f'rval@{t}{tag}', Val) for t in range(k)]
+        self.evict = [z3.Bool(f'evict@{t}{tag}') for t in range(k)]
 
 
 class System:
@@ -86,7 +87,7 @@ class System:
         sub0 = list(zip(self.st.vars(), S.vars())) + list(zip(self.inp.vars(), I.vars()))
         alts = []
         for n, s in enumerate(self.summaries):
-            sub = sub0 + [(v, z3.Const(f'{v.decl().name()}@{t}', v.sort())) for v in s.locals]
+            sub = sub0 + [(v, z3.Const(f'{v.decl().name()}@{t}{tr.tag}', v.sort())) for v in s.locals]
 
             def R(e):
                 return z3.substitute(e, *sub)
@@ -115,8 +116,8 @@ class System:
         cs += [vlen(vempty) == 0]
         return cs
 
-    def unroll(self, k):
-        tr = Trace(self.K, k)
+    def unroll(self, k, tag=''):
+        tr = Trace(self.K, k, tag=tag)
         for S in tr.S:
             S.clone_extras_from(self.st)
         cs = self.init(tr)
